@@ -4,11 +4,8 @@
 //! Correspondence harness: drives the real tantivy code (linked from /repo's working tree with
 //! `--cfg tantivy_verif`) and the compiled Lean model on the same generated inputs and reports
 //! disagreements and oracle violations. It never decides a verdict; `/verif/check` does.
-<<<<<<< HEAD
 mod c07_util;
-=======
 mod c16gen;
->>>>>>> worktree-agent-a140d07b643d9e172
 mod dirs;
 mod model;
 mod props;
